@@ -66,7 +66,12 @@ def sym(ctx, cfg):
         return r
     Q.__dict__["tdc"] = rec_tdc
     try:
-        if lkind == "bool":
+        if cfg.get("series"):
+            # pandas Series in (the documented alternative to boolean arrays): 0/1 labels of any dtype
+            from symx import sympd
+            labels = D._update_labels(sympd.Series(list(scores.items), name="score"), sympd.Series(list(target.items), name="Label", dtype=target.dtype), SNum(e), desc)
+            q = rec["q"]
+        elif lkind == "bool":
             labels = D._update_labels(scores, target, SNum(e), desc)
             q = rec["q"]
         else:
@@ -110,9 +115,9 @@ def harnesses(tier):
     funcs = [Q.tdc, Q._fdr2qvalue, D._update_labels]
     hs = []
 
-    def add(n, desc, skind, lkind, lrange=(0, 1)):
-        cfg = dict(n=n, desc=desc, skind=skind, lkind=lkind, lrange=list(lrange))
-        name = "tdc[n=%d,%s,%s,%s%s]" % (n, "desc" if desc else "asc", skind, lkind, "" if lrange == (0, 1) else ",labels%d..%d" % lrange)
+    def add(n, desc, skind, lkind, lrange=(0, 1), series=False):
+        cfg = dict(n=n, desc=desc, skind=skind, lkind=lkind, lrange=list(lrange), series=series)
+        name = "tdc[n=%d,%s,%s,%s%s%s]" % (n, "desc" if desc else "asc", skind, lkind, "" if lrange == (0, 1) else ",labels%d..%d" % lrange, ",pandas Series through _update_labels" if series else "")
         hs.append(Harness(name, cfg, sym, real="tdc", functions=funcs,
                           bounds=dict(N=n, scores=skind, labels=lkind),
                           stubs=["symnp (numpy subset, argsort ties nondeterministic)", "typeguard.typechecked = identity", "numba.njit = identity"],
@@ -130,6 +135,9 @@ def harnesses(tier):
         for n in range(1, nmax):
             add(n, desc, "real", "int")
             add(n, desc, "real", "float")
+        for lk in ("bool", "int", "float"):
+            add(2, desc, "real", lk, series=True)
+            add(3, desc, "real", lk, series=True)
         add(2, desc, "real", "int", (-1, 2))
         add(2, desc, "real", "float", (-1, 2))
     return hs
@@ -173,8 +181,15 @@ def real_tdc(cfg, inp):
         q2 = Q.qvalues_from_scores(scores, target, "tdc")
         if not np.allclose(q2, q, atol=1e-9):
             viol = "qvalues_from_scores('tdc') differs from tdc(desc=True)"
-    if viol is None and lkind == "bool":
-        labels = D._update_labels(scores, target, e, desc)
+    if viol is None and (lkind == "bool" or cfg.get("series")):
+        if cfg.get("series"):
+            import pandas as pd
+            try:
+                labels = D._update_labels(pd.Series(scores), pd.Series(target), e, desc)
+            except Exception as ex:
+                return dict(exception=repr(ex), violation="_update_labels(Series, Series of %s 0/1 labels) raised %r" % (lkind, ex))
+        else:
+            labels = D._update_labels(scores, target, e, desc)
         out["labels"] = [float(x) for x in labels]
         el = spec.conc_labels(exp, tb, Fraction(e))
         for i in range(n):
